@@ -18,6 +18,7 @@ import (
 	"time"
 
 	"github.com/Trendyol/go-dcp/couchbase"
+	"github.com/Trendyol/go-dcp/metadata"
 	"github.com/Trendyol/go-dcp/models"
 	"github.com/Trendyol/go-dcp/tracing"
 	"github.com/couchbase/gocbcore/v10"
@@ -159,7 +160,12 @@ type c20OpSpec struct {
 	mgmt     bool
 	needsDoc bool // succeeds only if the document exists
 	run      func(e *lbEnv, ctx context.Context, sc c20Wire) error
+	// prep (optional) runs before the generated behaviour is installed and before the node's log is marked: what it sends
+	// is not part of the judged call ("" = fine, else a finding of its own)
+	prep func(e *lbEnv, sc c20Wire) string
 }
+
+var c20PrepMD metadata.Metadata
 
 const c20Key = "_connector:cbgo:c20:doc"
 
@@ -192,6 +198,38 @@ var c20Ops = map[string]c20OpSpec{
 		e.cfg.Checkpoint.Timeout = time.Duration(sc.DeadMs) * time.Millisecond
 		md := couchbase.NewCBMetadata(e.client, e.cfg)
 		return md.Save(map[uint16]*models.CheckpointDocument{5: c02DocOf(ckTuple{UUID: 1, Seq: 2, Start: 1, End: 3}, "u")}, map[uint16]bool{5: true}, "u")
+	}},
+	// the same metadata object saves the same checkpoint twice: the first write is refused by the node (prep: the call must
+	// fail), the generated behaviour applies to the SECOND, byte-identical save - what was not confirmed the first time is not
+	// confirmed by having been tried
+	"MetadataSaveAgain": {cmds: []memd.CmdCode{memd.CmdSubDocMultiMutation, memd.CmdSet}, prep: func(e *lbEnv, sc c20Wire) string {
+		e.cfg.Dcp.Group.Name = "c20"
+		e.cfg.Checkpoint.Timeout = time.Duration(sc.DeadMs) * time.Millisecond
+		c20PrepMD = couchbase.NewCBMetadata(e.client, e.cfg)
+		e.c.Lock()
+		e.c.Hook = func(en *simnodeEntry) simnodeAction {
+			if en.Cmd == memd.CmdSubDocMultiMutation || en.Cmd == memd.CmdSet {
+				return simnodeAction{Kind: simnodeStatus, Status: memd.StatusInvalidArgs}
+			}
+			return simnodeAction{}
+		}
+		e.c.Unlock()
+		var err error
+		ok, pv := within(10*time.Second, func() {
+			err = c20PrepMD.Save(map[uint16]*models.CheckpointDocument{5: c02DocOf(ckTuple{UUID: 1, Seq: 2, Start: 1, End: 3}, "u")}, map[uint16]bool{5: true}, "u")
+		})
+		e.c.Lock()
+		e.c.Hook = nil
+		e.c.Unlock()
+		if !ok || pv != nil {
+			return fmt.Sprintf("MetadataSave against a node refusing the write: returned=%v panic=%v", ok, pv)
+		}
+		if err == nil {
+			return "MetadataSave reported success although the node refused the write (status invalid arguments)"
+		}
+		return ""
+	}, run: func(e *lbEnv, ctx context.Context, sc c20Wire) error {
+		return c20PrepMD.Save(map[uint16]*models.CheckpointDocument{5: c02DocOf(ckTuple{UUID: 1, Seq: 2, Start: 1, End: 3}, "u")}, map[uint16]bool{5: true}, "u")
 	}},
 	"MetadataClear": {cmds: []memd.CmdCode{memd.CmdDelete}, needsDoc: true, run: func(e *lbEnv, ctx context.Context, sc c20Wire) error {
 		e.cfg.Dcp.Group.Name = "c20"
@@ -293,6 +331,11 @@ func c20ExecWire(sc c20Wire) (detail string, labels []string) {
 		return false
 	}
 	var nMatch atomic.Int32
+	if spec.prep != nil {
+		if d := spec.prep(e, sc); d != "" {
+			return d, nil
+		}
+	}
 	if spec.mgmt && sc.Behave != "prompt" {
 		c.Lock()
 		switch sc.Behave {
@@ -471,7 +514,7 @@ func TestC20_Wire(t *testing.T) {
 		if spec.hardMs > 0 && sc.Behave == "drop" && sc.Op != "OpenStreamAfterRollback" {
 			sc.OnlyNth = 1 // a node that drops every retry until a 60 s deadline is a thorough-tier class
 		}
-		if sc.Behave == "status" && sc.Status == int(memd.StatusKeyNotFound) && (sc.Op == "MetadataSave" || sc.Op == "CloseStream") {
+		if sc.Behave == "status" && sc.Status == int(memd.StatusKeyNotFound) && (sc.Op == "MetadataSave" || sc.Op == "MetadataSaveAgain" || sc.Op == "CloseStream") {
 			sc.Status = int(memd.StatusAccessError) // key-not-found is a documented, handled outcome there
 		}
 		if (sc.Status == int(memd.StatusTmpFail) || sc.Status == int(memd.StatusBusy)) && spec.hardMs > 0 {
